@@ -38,24 +38,32 @@ static inline int spec_xml11_restricted(unsigned c)
 static inline int spec_xml11_eol_extra(unsigned c) { return c == 0x85 || c == 0x2028; }
 
 /* -------- character references (XML 4.1 [66] CharRef ::= '&#x' [0-9a-fA-F]+ ';') -------- */
-/* value of the hexadecimal character reference spelled in s[0..n): -1 if s is not of the form "&#x" hex+ ";"
- * (whole string), else the number (saturating above 2^32 is not needed: callers bound n). */
-static inline long long spec_charref(const unsigned short *s, unsigned long n)
+/* s[0..n) is exactly one hexadecimal character reference "&#x" hex+ ";" with at most 16 hex digits: returns 1 and stores
+ * the number it denotes in *val (hexadecimal positional value, most significant digit first); otherwise returns 0. */
+static inline int spec_charref(const unsigned short *s, unsigned long n, unsigned long long *val)
 {
-  if (n < 5) return -1;
-  if (s[0] != 0x26 || s[1] != 0x23 || s[2] != 0x78) return -1;    /* & # x */
-  if (s[n - 1] != 0x3B) return -1;                                   /* ;     */
-  long long v = 0;
+  if (n < 5 || n > 4 + 16) return 0;
+  if (s[0] != 0x26 || s[1] != 0x23 || s[2] != 0x78) return 0;     /* & # x */
+  if (s[n - 1] != 0x3B) return 0;                                    /* ;     */
+  unsigned long long v = 0;
   for (unsigned long i = 3; i + 1 < n; i++) {
     unsigned c = s[i];
     unsigned d;
     if (c >= 0x30 && c <= 0x39) d = c - 0x30;
     else if (c >= 0x41 && c <= 0x46) d = c - 0x41 + 10;
     else if (c >= 0x61 && c <= 0x66) d = c - 0x61 + 10;
-    else return -1;
-    if (v > 0xFFFFFFFLL) return -1;   /* more than 8 significant digits: outside this spec's domain */
-    v = v * 16 + d;
+    else return 0;
+    v = (v << 4) | d;
   }
-  return v;
+  *val = v;
+  return 1;
 }
+/* the canonical spelling asked for by the property: upper-case digits, no leading zero ("0" for zero) */
+static inline unsigned spec_hex_ndigits(unsigned long long v)
+{
+  unsigned n = 1;
+  while (v >>= 4) n++;
+  return n;
+}
+static inline unsigned short spec_hex_digit_upper(unsigned d) { return (unsigned short)(d < 10 ? 0x30 + d : 0x41 + (d - 10)); }
 #endif
